@@ -323,6 +323,9 @@ impl Ctx {
                 None => unknown.push(v.clone()),
             }
         }
+        // the subject may have left an unterminated line on stdout (the configuration loader
+        // prints some of its errors without a newline): verdict lines start on a line of their own
+        println!();
         for (k, v) in &known_hit {
             println!(
                 "KNOWN-FINDING: property={} key={} {} (reproduced {}x this run)",
